@@ -278,6 +278,28 @@ def run_failed(case, ctx):
 
 def run_sens(case, ctx):
     vals, mode, i, j = case["vals"], case["mode"], case["i"], case["j"]
+    if isinstance(vals[i], (list, tuple)):
+        # the same inner object twice inside one cell, against an equal cell built from separate objects: same contents
+        inner = vals[i]
+        shared = [inner, inner] if isinstance(inner, list) else (inner, inner)
+        apart = [list(inner), list(inner)] if isinstance(inner, list) else (tuple(list(inner)), tuple(x for x in inner))
+        ctx.ev()
+        try:
+            fa, fb = S.Vector([shared, 1]).fingerprint(), S.Vector([apart, 1]).fingerprint()
+        except Exception as e:  # noqa: BLE001
+            return ctx.fail(f"compound-cell/raised/{type(e).__name__}", f"{shared!r}: {e}")
+        if fa != fb:
+            return ctx.fail("stale/vector/object-sharing-inside-a-cell-changes-the-fingerprint", f"{shared!r} (one inner object twice) vs {apart!r} (equal, separate objects)")
+        # a NaN inside a cell: which NaN object it is is no part of the contents (as for a NaN that is a cell itself)
+        mk = (lambda: list(inner) + [float("nan")]) if isinstance(inner, list) else (lambda: tuple(inner) + (float("nan"),))
+        ctx.ev()
+        try:
+            c1, c2 = mk(), mk()              # both alive: two distinct NaN objects
+            f1, f2 = S.Vector([c1, 1]).fingerprint(), S.Vector([c2, 1]).fingerprint()
+        except Exception as e:  # noqa: BLE001
+            return ctx.fail(f"compound-cell/raised/{type(e).__name__}", f"{mk()!r}: {e}")
+        if f1 != f2:
+            return ctx.fail("stale/vector/nan-identity-inside-a-cell-changes-the-fingerprint", f"two builds of {mk()!r} (different NaN objects)")
     if mode == "twin":
         return run_twin(case, ctx)
     if mode == "failed":
